@@ -754,3 +754,72 @@ func TestC20_R_LengthWhileAnotherUsersRequestIsHeld(t *testing.T) {
 		}
 	}
 }
+
+// A node that records no BlockSizes over raw leaves of very different sizes, one of them above 2 MiB (a raw leaf's size is
+// its link's Tsize whatever it is), between nodes that do record them: a full read and a preload request the blocks in
+// depth-first link order.
+func TestC20_R_HugeRawLeafUnderANodeWithoutBlockSizes(t *testing.T) {
+	raw := func(n int, seed byte) *mnode { return &mnode{IsRaw: true, Raw: lcgBytes(n, seed, 0)} }
+	sized := func(kids []*mnode, withBlockSizes bool) (*mnode, uint64) {
+		m := &mnode{HasData: true, UFS: &ufsFields{Type: 2}}
+		tot := uint64(0)
+		for _, k := range kids {
+			var sz uint64
+			if k.IsRaw {
+				sz = uint64(len(k.Raw))
+			} else {
+				sz = *k.UFS.FileSize
+			}
+			m.Links = append(m.Links, mlink{Tsize: i64p(int64(sz)), Child: k})
+			if withBlockSizes {
+				m.UFS.BlockSizes = append(m.UFS.BlockSizes, sz)
+			}
+			tot += sz
+		}
+		m.UFS.FileSize = u64p(tot)
+		return m, tot
+	}
+	for _, big := range []int{2<<20 + 1, 5 << 20, 70000} {
+		left, _ := sized([]*mnode{raw(10, 1), raw(11, 2)}, true)
+		middle, _ := sized([]*mnode{raw(12, 3), raw(big, 4), raw(13, 5)}, false)
+		right, _ := sized([]*mnode{raw(14, 6)}, true)
+		root, total := sized([]*mnode{left, middle, right}, true)
+		st := NewStore()
+		ls := st.LinkSystem()
+		rc, err := root.store(st, ls)
+		if err != nil {
+			t.Fatal(err)
+		}
+		tree, err := st.FileTree(rc, 0)
+		if err != nil || tree.End != int64(total) {
+			t.Fatalf("harness: %v", err)
+		}
+		want := tree.PreOrder()
+		for _, op := range []string{"copy", "preload"} {
+			pn, err := loadPlain(ls, rc)
+			if err != nil {
+				t.Fatal(err)
+			}
+			st.ResetLogs()
+			if op == "preload" {
+				_, err = ls.KnownReifiers["unixfs-preload"](lcS, pn, ls)
+			} else {
+				var rn datamodel.Node
+				rn, err = ls.KnownReifiers["unixfs"](lcS, pn, ls)
+				if err == nil {
+					var rs io.ReadSeeker
+					rs, err = rn.(datamodel.LargeBytesNode).AsLargeBytes()
+					if err == nil {
+						_, err = io.Copy(io.Discard, rs)
+					}
+				}
+			}
+			if err != nil {
+				t.Fatalf("C20: %s of a file with a %d-byte raw leaf: %v", op, big, err)
+			}
+			if got := firstOccurrences(st.ReadLog()); !slices.Equal(got, want[1:]) {
+				t.Fatalf("C20: %s of a file whose middle node records no BlockSizes over raw leaves of 12, %d and 13 bytes: blocks requested in the order %v, depth-first link order is %v", op, big, shortCids(got), shortCids(want[1:]))
+			}
+		}
+	}
+}
